@@ -322,7 +322,7 @@ func hostileKeys() []string {
 	}
 }
 
-var callers = []string{"realm", "realm", "realm", "try", "try", "plib", "peer", "sub", "both", "run-direct", "run-direct-nc", "run-realm", "run-plib", "init-realm", "init-pure"}
+var callers = []string{"realm", "realm", "realm", "try", "try", "plib", "peer", "sub", "both", "peer-obj", "peer-obj", "peer-closure", "run-direct", "run-direct-nc", "run-realm", "run-plib", "init-realm", "init-pure"}
 
 func (r *runner) runPath(signer string) string {
 	return "gno.land/e/" + r.addr(signer) + "/run"
@@ -485,7 +485,9 @@ func grammarOK(key string) bool { return key != "" && !strings.Contains(key, ":"
 // expectation of one "set" message: the realm whose namespace it may write.
 func (r *runner) nsOf(op *Op, initPath string) []string {
 	switch op.Caller {
-	case "realm", "try", "plib", "run-realm":
+	case "realm", "try", "plib", "run-realm", "peer-obj", "peer-closure":
+		// peer-obj / peer-closure: the code is declared in /p/ and the object it hangs on is stored
+		// in pb, but the realm that called (and is writing) is pa
 		return []string{PaPath}
 	case "peer", "sub":
 		return []string{PbPath}
@@ -513,6 +515,10 @@ func (r *runner) buildSet(op *Op) (msgs []std.Msg, initPath string) {
 		msgs = []std.Msg{call("ViaPeer")}
 	case "sub":
 		msgs = []std.Msg{call("ViaSub")}
+	case "peer-obj":
+		msgs = []std.Msg{call("ViaPeerObj")}
+	case "peer-closure":
+		msgs = []std.Msg{call("ViaPeerClosure")}
 	case "both":
 		msgs = []std.Msg{call("Both")}
 	case "run-direct":
